@@ -5,7 +5,7 @@ From AnemoVerif.Proofs Require Import Rpc_proofs.
 (** The caller may abandon in every state before the call has returned. *)
 Theorem C12_abandon_always_possible : forall max handler st,
   (exists n, cs st = CWriting n) \/ cs st = CFinished ->
-  exists st', sstep max handler st Abandon = Some st' /\ cs st' = CAbandoned /\ reset st' = true /\ stopped st' = true.
+  exists st', sstep max handler st Abandon = Some st' /\ abandoned st' = true /\ reset st' = true /\ stopped st' = true.
 Proof.
   intros max handler st [[n E]|E]; cbn [sstep]; rewrite E; eexists; repeat split.
 Qed.
@@ -25,7 +25,7 @@ Proof. exact closed_absorbing. Qed.
 (** Every abandoned stream that is still open at the server has an enabled step that closes it:
     under weak fairness it closes in one step. *)
 Theorem C12_stream_closes : forall max handler st,
-  ainv st -> cs st = CAbandoned -> closed (ss st) = false ->
+  ainv st -> abandoned st = true -> closed (ss st) = false ->
   exists l st', In l [NoticeStop; NoticeReset] /\ sstep max handler st l = Some st'
                 /\ closed (ss st') = true /\ invocations st' = invocations st.
 Proof. exact abandoned_progress. Qed.
@@ -34,7 +34,7 @@ Proof. exact abandoned_progress. Qed.
     whatever the history (any number of abandoned calls, interleaved with live ones). *)
 Theorem C12_no_credit_leak : forall max handler sched ws c',
   crun max handler (map open_stream ws) sched = Some c' -> server_quiescent max handler c' ->
-  forall st, In st c' -> cs st = CAbandoned -> closed (ss st) = true.
+  forall st, In st c' -> abandoned st = true -> closed (ss st) = true.
 Proof. exact no_credit_leak. Qed.
 
 Theorem C12_siblings_unaffected : forall max handler c i c' j,
